@@ -942,3 +942,97 @@ def registry_probe_inputs(name, rng, k=40):
                             s2[i] = alphabet[0]
                     out.append(''.join(s2))
     return list(dict.fromkeys(out))
+
+
+
+# --------------------------------------------------------------------------
+# thread replica: the same monitor workload executed by several threads at once from a cold start
+
+def install_yield_injection(seed, yieldp=0.03, budget=300, tool=4):
+    """LINE-level yield injection on stdnum code (statement starts only), budgeted per location."""
+    import threading
+    mon = sys.monitoring
+    root = os.path.join(REPO, 'stdnum') + os.sep
+    try:
+        mon.use_tool_id(tool, 'verif-yield')
+    except ValueError:
+        return lambda: None
+    hits = {}
+    local = threading.local()
+    stats = {'line_events': 0, 'yields': 0}
+
+    def on_line(code, lineno):
+        if not code.co_filename.startswith(root):
+            return mon.DISABLE
+        key = (code, lineno)
+        c = hits.get(key, 0) + 1
+        hits[key] = c
+        if c > budget:
+            return mon.DISABLE
+        stats['line_events'] += 1
+        r = getattr(local, 'rng', None)
+        if r is None:
+            r = local.rng = random.Random('%s:%s' % (seed, threading.get_ident()))
+        if r.random() < yieldp:
+            stats['yields'] += 1
+            time.sleep(0)
+    mon.register_callback(tool, mon.events.LINE, on_line)
+    mon.set_events(tool, mon.events.LINE)
+
+    def stop():
+        mon.set_events(tool, 0)
+        mon.register_callback(tool, mon.events.LINE, None)
+        try:
+            mon.free_tool_id(tool)
+        except ValueError:
+            pass
+        return stats
+    return stop
+
+
+def thread_replica(mod, bases, tier, nthreads=4):
+    """Run mod.work() on the given base shards from `nthreads` threads at once (threads 2k and 2k+1 share a shard).
+    The caller's process is fresh, so first uses of lazily built state happen inside the race."""
+    import threading
+    number_modules()      # the program's own imports happen before the threads start
+    stop = install_yield_injection('%d:%s' % (SEED, mod.__name__))
+    old = sys.getswitchinterval()
+    sys.setswitchinterval(2e-4)    # interleaving comes from the injected yields; a tiny interval only burns time in GIL hand-offs
+    results = [None] * nthreads
+    errors = []
+    barrier = threading.Barrier(nthreads)
+
+    def run(i):
+        try:
+            barrier.wait()
+            results[i] = mod.work(bases[(i // 2) % len(bases)], tier)
+        except BaseException as e:  # noqa: B902
+            errors.append('thread %d: %r' % (i, e))
+    threads = [threading.Thread(target=run, args=(i,)) for i in range(nthreads)]
+    for t in threads:
+        t.start()
+    for t in threads:
+        t.join()
+    sys.setswitchinterval(old)
+    stats = stop() or {}
+    out = {'evaluations': 0, 'nontrivial': 0, 'violations': [], 'samples': [], 'counters': {'thread_replica_runs': 1,
+           'thread_replica_line_events': stats.get('line_events', 0), 'thread_replica_yields': stats.get('yields', 0)},
+           'sets': {}, 'inconclusive': []}
+    seen = {}
+    for r in results:
+        if r is None:
+            continue
+        out['evaluations'] += r.get('evaluations', 0)
+        for v in r.get('violations', []):
+            if v['sig'] not in seen:
+                v = dict(v)
+                v['what'] = v['what'] + ' [seen while %d threads ran this workload concurrently from a cold start]' % nthreads
+                w = dict(v.get('witness') or {})
+                w['thread_replica'] = {'bases': bases}
+                v['witness'] = w
+                seen[v['sig']] = v
+        out['inconclusive'].extend(r.get('inconclusive', []))
+    out['violations'] = list(seen.values())
+    if errors:
+        out['inconclusive'].append('thread replica failed: %s' % errors[:2])
+    return out
